@@ -111,6 +111,9 @@ func genC01Scenario(seed int64, idx int) c01Scenario {
 			extra = append(extra, fmt.Sprintf("print(%s.x, %s[1], %s.a.b)", v.name, v.name, v.name))
 		}
 		sc.files["main.lua"] += "---@alias CycA CycB\n---@alias CycB CycA[]\n---@type CycA\nlocal cyc = {}\nprint(cyc[1], cyc.k, cyc[1][2])\n" + strings.Join(extra, "\n") + "\n"
+		// a function-type alias declared in ANOTHER file, used through a call
+		sc.files["al.lua"] = "---@class AlK\n---@field k1 number\n\n---@alias HandlerZ fun():AlK\n---@alias HandlerY HandlerZ\n"
+		sc.files["main.lua"] += "---@type HandlerZ\nlocal hz = nil\nprint(hz().k1, hz())\n---@type HandlerY\nlocal hy = nil\nprint(hy().k1)\n"
 	case 4: // configuration file mode
 		sc.kind = "config"
 		names := []string{"import", "im(port", "a+*", "[x", "req\\", "ok"}
@@ -227,13 +230,17 @@ func runC01Scenario(sc c01Scenario, idx int, res *lib.Result) {
 	sess.DidOpen(sc.open, text)
 	sweep := func(t string) bool {
 		lines := strings.Split(t, "\n")
-		if len(lines) > 14 {
-			lines = lines[:14]
-		}
 		for ln, l := range lines {
+			// the first 14 lines and the last 8 (scenario families append their special constructs at the end)
+			if ln >= 14 && ln < len(lines)-8 {
+				continue
+			}
 			cols := []int{0, len(l) / 2, len(l)}
 			if len(l) > 6 {
 				cols = append(cols, 3, len(l)-2)
+			}
+			if k := strings.Index(l, ")."); k >= 0 {
+				cols = append(cols, k+2, k+3) // a member reached through a call
 			}
 			for _, c := range cols {
 				for _, m := range c01Methods {
@@ -371,7 +378,7 @@ func runC01(res *lib.Result, tier string, seed int64, args []string) error {
 	if tier == "thorough" {
 		n, batch = 2000, 40
 	}
-	res.Rule = "scenarios run against the real server in child processes (a crash kills only the child; the parent records the scenario that was running and goes on): token soup and raw bytes, mutated and truncated programs (and EVERY prefix of those files through the real parser), annotation soup with enum blocks, cyclic class / alias worlds with indexed access, random luahelper.json files (regex metacharacters, invalid JSON, odd separators), partial unsaved edits, deep nesting (50-1500 levels), file events on malformed files, workspaces with more files than worker goroutines; a fault swallowed by the parser's recover() (hook VerifRecovered) is reported as an abandoned analysis; in every scenario hover, definition, references, completion, signatureHelp, documentHighlight and rename are sent at 3-5 columns of each of the first 14 lines, plus documentSymbol, documentColor and workspace/symbol; a request that does not answer within 15 s is a hang; non-trivial = every scenario; distinct by scenario"
+	res.Rule = "scenarios run against the real server in child processes (a crash kills only the child; the parent records the scenario that was running and goes on): token soup and raw bytes, mutated and truncated programs (and EVERY prefix of those files through the real parser), annotation soup with enum blocks, cyclic class / alias worlds with indexed access, random luahelper.json files (regex metacharacters, invalid JSON, odd separators), partial unsaved edits, deep nesting (50-1500 levels), file events on malformed files, workspaces with more files than worker goroutines; a fault swallowed by the parser's recover() (hook VerifRecovered) is reported as an abandoned analysis; in every scenario hover, definition, references, completion, signatureHelp, documentHighlight and rename are sent at 3-7 columns of each of the first 14 and last 8 lines, plus documentSymbol, documentColor and workspace/symbol; a request that does not answer within 15 s is a hang; non-trivial = every scenario; distinct by scenario"
 	work := lib.ScratchDir("c01")
 	defer os.RemoveAll(work)
 	kinds := map[string]int{}
